@@ -96,9 +96,9 @@ structure RenderShape where
   deriving DecidableEq, Repr
 /-- One leading ` + "`if … { return }`" + ` of a Draw method: no encoded data yet (` + "`X.buf.Len() == 0`" + `), the encoder goroutine
     still running (` + "`atomicLoad(&X.encoding)`" + `), the size test ` + "`X.w <cw> w <conn> X.h <ch> h`" + ` against
-    ` + "`w, h := win.Size()`" + `, or a condition the extractor does not know (the model then treats the method as never
+    ` + "`w, h := win.Size()`" + `, the image has no cells (` + "`X.w == 0 || X.h == 0`" + `, F520), or a condition the extractor does not know (the model then treats the method as never
     drawing, and the theorems about Gen's gates fail). -/
-inductive Gate | noData | encoding | size (cw : Cmp) (conn : Conn) (ch : Cmp) | unknown (text : String)
+inductive Gate | noData | encoding | size (cw : Cmp) (conn : Conn) (ch : Cmp) | zeroSize | unknown (text : String)
   deriving DecidableEq, Repr
 /-- The top-level statements of the placement stretch of (*Vaxis).render, in SOURCE ORDER (round 4): the loop over
     ` + "`vx.graphicsLast`" + ` (deletes), ` + "`if vx.refresh { vx.graphicsLast = … }`" + `, the loop over ` + "`vx.graphicsNext`" + ` (writes),
@@ -1267,6 +1267,8 @@ func structuredGates(c *ex.Ctx, fd *ast.FuncDecl, recv string) []string {
 			out = append(out, ".noData")
 		case cond == "atomicLoad(&"+recv+".encoding)":
 			out = append(out, ".encoding")
+		case cond == recv+".w == 0 || "+recv+".h == 0":
+			out = append(out, ".zeroSize")
 		default:
 			g := ".unknown " + ex.LeanStr(cond)
 			if be, ok := is.Cond.(*ast.BinaryExpr); ok && wName != "" && (be.Op == token.LOR || be.Op == token.LAND) {
